@@ -1,4 +1,5 @@
 import Modbus.Lemmas.ReqCodec
+import Modbus.Lemmas.Coherent
 /-
 C01 — request PDU round-trip: decode(encode(r)) is r.
 
@@ -64,6 +65,82 @@ theorem req_pdu_roundtrip {r : Request} {m : ReqMeaning} (hb : r.Built m) (hf : 
       Request.decode (out.take n) = .ok r' ∧ r'.sem = some m :=
   req_roundtrip hb hf hs buf len hlen hl
 
+/-! ### the IDENTICAL value comes back -/
+
+/-- the requests whose decoded form can be the identical Rust value: every non-custom kind; a custom request
+    when it carries `FunctionCode::Custom(c)` with `c < 0x80` not one of the nine modelled codes — that is the
+    form `Request::try_from` wraps an unmodelled code in (for `FunctionCode::new(0x07) = ReadExceptionStatus`
+    and the other named-but-unmodelled codes the decoded value is `Custom(Custom(0x07), …)`: same meaning,
+    different variant, see the example below) -/
+def ExactScope : Request → Prop
+  | .custom fc _ => ∃ c, fc = .custom c ∧ c < 0x80 ∧ c ∉ modelledReqCodes
+  | _ => True
+
+instance (r : Request) : Decidable (ExactScope r) := by
+  cases r with
+  | custom fc d =>
+    cases fc with
+    | custom c =>
+      exact decidable_of_iff (c < 0x80 ∧ c ∉ modelledReqCodes)
+        ⟨fun h => ⟨c, rfl, h⟩, fun ⟨c', hc, h⟩ => by cases hc; exact h⟩
+    | _ => exact isFalse (fun ⟨c, hc, _⟩ => by cases hc)
+  | _ => exact isTrue trivial
+
+/-- decoding the wire image of a constructible request in `ExactScope` whose payload fits gives back the
+    IDENTICAL value (structural equality: same variant, same fields, the very same container — raw slice and
+    count — because `from_bools` / `from_words` keep exactly the packed bytes) -/
+theorem req_decode_image_exact {r : Request} {m : ReqMeaning} (hb : r.Built m) (hf : m.fits) (hx : ExactScope r) :
+    Request.decode r.image = .ok r := by
+  cases hb with
+  | readCoils a q => exact Request.decode_fixed_image.1 a q
+  | readDiscreteInputs a q => exact Request.decode_fixed_image.2.1 a q
+  | readInputRegisters a q => exact Request.decode_fixed_image.2.2.1 a q
+  | readHoldingRegisters a q => exact Request.decode_fixed_image.2.2.2.1 a q
+  | writeSingleRegister a q => exact Request.decode_fixed_image.2.2.2.2 a q
+  | writeSingleCoil a c => exact Request.decode_writeSingleCoil_image a c
+  | writeMultipleCoils a bs t c h =>
+    obtain ⟨_, _, rfl⟩ := Coils.fromBools_ok h
+    obtain ⟨_, h255⟩ := hf
+    have h1 : (Coils.mk (Spec.packBits bs) bs.length).packedLen ≤ 255 := h255
+    have h2 : (Coils.mk (Spec.packBits bs) bs.length).packedLen ≤ (Spec.packBits bs).length := by
+      rw [packBits_length]; exact Nat.le_refl _
+    have := Request.redecode_wmc a ⟨Spec.packBits bs, bs.length⟩ (by show bs.length < 65536; omega) h1 h2
+    rw [Coils.wire_packBits] at this
+    exact this
+  | writeMultipleRegisters a ws t d h =>
+    obtain ⟨_, rfl⟩ := Data.fromWords_ok h
+    obtain ⟨_, h255⟩ := hf
+    exact Request.redecode_wmr a ⟨Spec.wordsBE ws, ws.length⟩ (by show ws.length < 65536; omega)
+      (by show ws.length * 2 ≤ 255; omega) (wordsBE_length ws)
+  | readWriteMultipleRegisters ra rq wa ws t d h =>
+    obtain ⟨_, rfl⟩ := Data.fromWords_ok h
+    obtain ⟨_, h255⟩ := hf
+    exact Request.redecode_rwmr ra rq wa ⟨Spec.wordsBE ws, ws.length⟩ (by show ws.length < 65536; omega)
+      (by show ws.length * 2 ≤ 255; omega) (wordsBE_length ws)
+  | custom fc d =>
+    obtain ⟨c, rfl, hlt, hc⟩ := hx
+    show Request.decode (c :: d) = _
+    rw [Request.decode_other c d hc, if_pos hlt]
+
+/-- **same-value round trip**: for a constructible request in `ExactScope` whose payload fits, encoding into
+    any large-enough buffer and decoding the bytes written returns `.ok r` — the identical value, not merely
+    one with the same meaning -/
+theorem req_roundtrip_exact {r : Request} {m : ReqMeaning} (hb : r.Built m) (hf : m.fits) (hx : ExactScope r)
+    (buf : Bytes) (hl : (reqBytes m).length ≤ buf.length) :
+    ∃ n out, r.encode buf = .ok (n, out) ∧ r.pduLen = .ok n ∧ Request.decode (out.take n) = .ok r := by
+  obtain ⟨hp, he⟩ := req_encode_ok hb hf buf hl
+  refine ⟨_, _, he, hp, ?_⟩
+  rw [List.take_left' rfl, ← hb.image_eq]
+  exact req_decode_image_exact hb hf hx
+
+/-- outside `ExactScope`: `Custom(FunctionCode::new(0x07), [5])` (the named code Read Exception Status) comes
+    back as `Custom(FunctionCode::Custom(0x07), [5])` — equal meaning, not the identical value -/
+example : ¬ ExactScope (.custom (FunctionCode.new 0x07) [5]) ∧
+    Request.decode (Request.custom (FunctionCode.new 0x07) [5]).image = .ok (.custom (.custom 0x07) [5]) ∧
+    Request.custom (.custom 0x07) [5] ≠ Request.custom (FunctionCode.new 0x07) [5] ∧
+    ExactScope (.custom (.custom 0x07) [5]) := by
+  refine ⟨by decide +kernel, by decide +kernel, by decide +kernel, by decide +kernel⟩
+
 /-- "the decoder may refuse, but it never returns a different request" — for EVERY constructible
     request (any payload size, any field values, also outside the Modbus limits), every custom code the
     library does not model as a dedicated kind (any byte value, also ≥ 0x80), and every buffer:
@@ -112,13 +189,18 @@ example : ∃ c, Coils.fromBools nine [0xFF, 0xFF, 0xAA] = .ok c ∧
       .ok (8, [0x0F, 0xFF, 0xFF, 0x00, 0x09, 0x02, 0xCD, 0x01, 0x55, 0x55]) ∧
     ∃ r', Request.decode [0x0F, 0xFF, 0xFF, 0x00, 0x09, 0x02, 0xCD, 0x01] = .ok r' ∧
       r'.sem = some (.writeMultipleCoils 0xFFFF nine) :=
-  ⟨⟨[0xCD, 0x01, 0xAA], 9⟩, by decide +kernel, by decide +kernel, by decide +kernel,
+  ⟨⟨[0xCD, 0x01], 9⟩, by decide +kernel, by decide +kernel, by decide +kernel,
     ⟨.writeMultipleCoils 0xFFFF ⟨[0xCD, 0x01], 9⟩, by decide +kernel, by decide +kernel⟩⟩
 
 /-- the hypotheses of `req_roundtrip` for that request -/
-example : (Request.writeMultipleCoils 0xFFFF ⟨[0xCD, 0x01, 0xAA], 9⟩).Built (.writeMultipleCoils 0xFFFF nine) ∧
+example : (Request.writeMultipleCoils 0xFFFF ⟨[0xCD, 0x01], 9⟩).Built (.writeMultipleCoils 0xFFFF nine) ∧
     (ReqMeaning.writeMultipleCoils 0xFFFF nine).fits ∧ (ReqMeaning.writeMultipleCoils 0xFFFF nine).InScope :=
   ⟨.writeMultipleCoils 0xFFFF nine [0xFF, 0xFF, 0xAA] _ (by decide +kernel), by decide +kernel, trivial⟩
+
+/-- … and `req_roundtrip_exact` applies: the identical value comes back -/
+example : Request.decode [0x0F, 0xFF, 0xFF, 0x00, 0x09, 0x02, 0xCD, 0x01] =
+    .ok (.writeMultipleCoils 0xFFFF ⟨[0xCD, 0x01], 9⟩) ∧ ExactScope (.writeMultipleCoils 0xFFFF ⟨[0xCD, 0x01], 9⟩) :=
+  ⟨by decide +kernel, trivial⟩
 
 private def words127 : List UInt16 := (List.range 127).map fun i => UInt16.ofNat (0xFF00 + i)
 
